@@ -40,6 +40,9 @@ func c08AddM(e *emitter, rp c08Replay, kindN int, nontrivial bool) int {
 	if rp.Start >= 1<<31 || rp.Count >= 1<<31 {
 		e.count("machine_twin_offset_or_count>=2^31")
 	}
+	if rp.Start < 0 || rp.Count < 0 {
+		e.count("machine_twin_negative_offset_or_count")
+	}
 	return e.add(term, c08MReplay{true, rp}, nontrivial)
 }
 
@@ -141,6 +144,22 @@ func runC08Machine(c *runCtx, e *emitter, r *rng) {
 						for _, kind := range []string{"aggregated-all", "delete-keys", "aggregated-ordered", "aggregated-interleaved"} {
 							runStmtCase(e, kind, n, B, s, cnt)
 						}
+					}
+				}
+			}
+		}
+	}
+	// negative Start / Count (the plan fields are public; the parser cannot produce them)
+	for _, B := range []int{1, 2, 32} {
+		for _, n := range []int{0, 1, B + 1, 2*B + 1} {
+			chs := chunkings(r, n, B, 1)
+			negs := []int{-1, -2, -B, math.MinInt64 + 1, math.MinInt64}
+			others := []int{0, 1, B, math.MaxInt64}
+			for _, ng := range negs {
+				for _, o := range append(others, negs...) {
+					for _, final := range []bool{false, true} {
+						c08Emit(e, runNode(final, B, ng, o, chs[0]))
+						c08Emit(e, runNode(final, B, o, ng, chs[len(chs)-1]))
 					}
 				}
 			}
